@@ -59,7 +59,8 @@ Threshold == (2 * NV) \div 3
 VARIABLES round,   \* round[v]      s.state.round
           stage,   \* stage[v]      "start" | "prevoted" | "precommitted" | "done"
           head,    \* head[v]       s.head
-          known,   \* known[v]      blocks in v's block state
+          known,   \* known[v]      blocks in v's block state (abandoned forks are pruned on finalisation)
+          arr,     \* arr[v]        the order in which blocks reached v (fork-choice tie break: earlier arrival)
           finR,    \* finR[v]       function round -> finalised block (block state rows), 0 = genesis at round 0
           bsHead,  \* bsHead[v]     block state's highest finalised block
           pv, pc,  \* pv[v], pc[v]  stored votes of the current round: function sender -> block (partial)
@@ -67,7 +68,7 @@ VARIABLES round,   \* round[v]      s.state.round
           sentPV, sentPC, \* honest votes that exist in the network: sets of [w, r, b]
           hist, done
 
-vars == <<round, stage, head, known, finR, bsHead, pv, pc, epv, epc, sentPV, sentPC, hist, done>>
+vars == <<round, stage, head, known, arr, finR, bsHead, pv, pc, epv, epc, sentPV, sentPC, hist, done>>
 
 Primary(r) == ((r % NV) + 1)
 
@@ -75,12 +76,28 @@ Primary(r) == ((r % NV) + 1)
 Total(votes, eq, b) == Cardinality({w \in DOMAIN votes : IsDesc(b, votes[w])}) + Cardinality(eq)
 Super(votes, eq) == {b \in Blocks : Total(votes, eq, b) > Threshold}
 Highest(S) == CHOOSE b \in S : \A c \in S : Height(c) <= Height(b)
-(* prevote GHOST: highest block with more than two thirds of the weight *)
-HasGhost(votes, eq) == Super(votes, eq) # {}
-Ghost(votes, eq) == Highest(Super(votes, eq))
-(* best final candidate: highest block at or below the prevote GHOST that has, or is an ancestor *)
-(* of a block that has, more than two thirds of the precommits                                   *)
-BFC(g, pcv, pce) == LET S == {LCA(b, g) : b \in Super(pcv, pce)} IN IF S = {} THEN g ELSE Highest(S)
+(* lib/grandpa's getPossibleSelectedBlocks (deviation from the paper's GHOST, named          *)
+(* GossamerDirectVoteShortcut): if some DIRECTLY voted block has more than two thirds, only    *)
+(* directly voted blocks are candidates; otherwise the lowest common ancestors of pairs of      *)
+(* voted blocks are.  C21's specification (VoterChoice) states the ideal rule and its check     *)
+(* reports the difference; here the model follows the code so that behaviours stay replayable.  *)
+Voted(votes) == {votes[w] : w \in DOMAIN votes}
+Selected(votes, eq) ==
+  LET DV == {b \in Voted(votes) : Total(votes, eq, b) > Threshold}
+      PL == {LCA(x, y) : x \in Voted(votes), y \in Voted(votes)} \ Voted(votes)
+  IN IF DV # {} THEN DV ELSE {b \in PL : Total(votes, eq, b) > Threshold}
+(* the code's search over ancestors returns early / iterates a Go map: where its answer may   *)
+(* depend on iteration order the model does not take the step (generator) -- see PrecommitOK   *)
+Ambiguous(votes, eq) ==
+  \/ /\ {b \in Voted(votes) : Total(votes, eq, b) > Threshold} = {}
+     /\ \E x, y \in Voted(votes) : x # y /\ IsDesc(x, y)
+  \/ \E x, y \in Selected(votes, eq) : x # y /\ Height(x) = Height(y)
+                                        /\ \A z \in Selected(votes, eq) : Height(z) <= Height(x)
+HasGhost(votes, eq) == Selected(votes, eq) # {}
+Ghost(votes, eq) == Highest(Selected(votes, eq))
+(* best final candidate: highest block at or below the prevote GHOST that is selected by the *)
+(* precommits, or the common ancestor with the GHOST of a selected block                      *)
+BFC(g, pcv, pce) == LET S == {LCA(b, g) : b \in Selected(pcv, pce)} IN IF S = {} THEN g ELSE Highest(S)
 
 (* ---- vote delivery (validateVoteMessage) ---------------------------------- *)
 Valid(v, b) == b \in known[v] /\ IsDesc(head[v], b)
@@ -101,16 +118,22 @@ AvailPC(v) == {<<x.w, x.b>> : x \in {y \in sentPC : y.r = round[v] /\ y.w # v /\
 Rec(o) == hist' = Append(hist, o)
 
 Learn(v, b) ==
-  /\ b \notin known[v] /\ Par(b) \in known[v]
+  /\ b \notin known[v] /\ Par(b) \in known[v] /\ IsDesc(bsHead[v], Par(b))
   /\ known' = [known EXCEPT ![v] = @ \cup {b}]
+  /\ arr' = [arr EXCEPT ![v] = Append(@, b)]
   /\ Rec([a |-> "Learn", v |-> v, b |-> b])
   /\ UNCHANGED <<round, stage, head, finR, bsHead, pv, pc, epv, epc, sentPV, sentPC, done>>
 
 Completable(v) == round[v] \in DOMAIN finR[v] \/ \E r \in DOMAIN finR[v] : r > round[v]
 
+(* fork choice (C16) without primary-slot marks: greatest height, then earliest arrival *)
+Pos(v, b) == IF b = 0 THEN 0 ELSE CHOOSE i \in 1..Len(arr[v]) : arr[v][i] = b
 BestBlocks(v) ==
   LET C == {b \in known[v] : IsDesc(bsHead[v], b)}
-  IN {b \in C : \A c \in C : Height(c) <= Height(b)}
+      T == {b \in C : \A c \in C : Height(c) <= Height(b)}
+  IN {b \in T : \A c \in T : Pos(v, b) <= Pos(v, c)}
+(* finalising c prunes every block that is neither an ancestor nor a descendant of c *)
+Pruned(K, c) == {b \in K : OnSameChain(b, c)}
 
 Prevote(v, b) ==
   /\ stage[v] = "start" /\ ~Completable(v)
@@ -123,7 +146,7 @@ Prevote(v, b) ==
   /\ pv' = [pv EXCEPT ![v] = [w \in DOMAIN @ \cup {v} |-> IF w = v THEN b ELSE @[w]]]
   /\ stage' = [stage EXCEPT ![v] = "prevoted"]
   /\ Rec([a |-> "Prevote", v |-> v, r |-> round[v], b |-> b])
-  /\ UNCHANGED <<round, head, known, finR, bsHead, pc, epv, epc, sentPC, done>>
+  /\ UNCHANGED <<round, head, known, arr, finR, bsHead, pc, epv, epc, sentPC, done>>
 
 (* the primary's prevote may reach v before v prevotes *)
 RecvPrimary(v, b) ==
@@ -132,7 +155,7 @@ RecvPrimary(v, b) ==
   /\ LET d == Deliver(v, pv[v], epv[v], {<<Primary(round[v]), b>>})
      IN pv' = [pv EXCEPT ![v] = d.votes] /\ epv' = [epv EXCEPT ![v] = d.eq]
   /\ Rec([a |-> "RecvPV", v |-> v, r |-> round[v], d |-> <<<<Primary(round[v]), b>>>>])
-  /\ UNCHANGED <<round, stage, head, known, finR, bsHead, pc, epc, sentPV, sentPC, done>>
+  /\ UNCHANGED <<round, stage, head, known, arr, finR, bsHead, pc, epc, sentPV, sentPC, done>>
 
 AsSeq(D) == LET RECURSIVE F(_)
                 F(S) == IF S = {} THEN <<>> ELSE LET x == CHOOSE y \in S : TRUE IN <<x>> \o F(S \ {x})
@@ -150,7 +173,7 @@ Precommit(v, D) ==
             /\ pc' = [pc EXCEPT ![v] = [w \in DOMAIN @ \cup {v} |-> IF w = v THEN g ELSE @[w]]]
             /\ Rec([a |-> "Precommit", v |-> v, r |-> round[v], d |-> AsSeq(D), b |-> g])
   /\ stage' = [stage EXCEPT ![v] = "precommitted"]
-  /\ UNCHANGED <<round, head, known, finR, bsHead, epc, sentPV, done>>
+  /\ UNCHANGED <<round, head, known, arr, finR, bsHead, epc, sentPV, done>>
 
 Finalise(v, D) ==
   /\ stage[v] = "precommitted" /\ ~Completable(v)
@@ -165,10 +188,11 @@ Finalise(v, D) ==
         /\ pc' = [pc EXCEPT ![v] = d.votes] /\ epc' = [epc EXCEPT ![v] = d.eq]
         /\ finR' = [finR EXCEPT ![v] = [r \in DOMAIN @ \cup {round[v]} |-> IF r = round[v] THEN c ELSE @[r]]]
         /\ bsHead' = [bsHead EXCEPT ![v] = c]
+        /\ known' = [known EXCEPT ![v] = Pruned(@, c)]
         /\ head' = [head EXCEPT ![v] = c]
         /\ Rec([a |-> "Finalise", v |-> v, r |-> round[v], d |-> AsSeq(D), b |-> c])
   /\ stage' = [stage EXCEPT ![v] = "done"]
-  /\ UNCHANGED <<round, known, pv, epv, sentPV, sentPC, done>>
+  /\ UNCHANGED <<round, arr, pv, epv, sentPV, sentPC, done>>
 
 (* a commit for round r and target t carrying the precommits S = set of <<w, b>> *)
 CommitWeight(t, S) ==
@@ -186,8 +210,19 @@ AcceptCommit(v, r, t, S) ==
   /\ CommitWeight(t, S) >= CommitMin
   /\ finR' = [finR EXCEPT ![v] = [q \in DOMAIN @ \cup {r} |-> IF q = r THEN t ELSE @[q]]]
   /\ bsHead' = [bsHead EXCEPT ![v] = t]
+  /\ known' = [known EXCEPT ![v] = Pruned(@, t)]
   /\ Rec([a |-> "AcceptCommit", v |-> v, r |-> r, b |-> t, d |-> AsSeq(S)])
-  /\ UNCHANGED <<round, stage, head, known, pv, pc, epv, epc, sentPV, sentPC, done>>
+  /\ UNCHANGED <<round, stage, head, arr, pv, pc, epv, epc, sentPV, sentPC, done>>
+
+(* a commit that falls one precommit short must be refused and change nothing *)
+RejectCommit(v, r, t, S) ==
+  /\ r \notin DOMAIN finR[v]
+  /\ t \in known[v] /\ \A s \in S : s[2] \in known[v]
+  /\ S \subseteq ExistingPC(r)
+  /\ IsDesc(bsHead[v], t)
+  /\ CommitWeight(t, S) < CommitMin
+  /\ Rec([a |-> "RejectCommit", v |-> v, r |-> r, b |-> t, d |-> AsSeq(S)])
+  /\ UNCHANGED <<round, stage, head, known, arr, finR, bsHead, pv, pc, epv, epc, sentPV, sentPC, done>>
 
 HighestRound(v) == CHOOSE r \in DOMAIN finR[v] : \A q \in DOMAIN finR[v] : q <= r
 
@@ -202,12 +237,12 @@ NextRound(v) ==
   /\ stage' = [stage EXCEPT ![v] = "start"]
   /\ pv' = [pv EXCEPT ![v] = << >>] /\ pc' = [pc EXCEPT ![v] = << >>]
   /\ epv' = [epv EXCEPT ![v] = {}] /\ epc' = [epc EXCEPT ![v] = {}]
-  /\ UNCHANGED <<known, finR, bsHead, sentPV, sentPC, done>>
+  /\ UNCHANGED <<known, arr, finR, bsHead, sentPV, sentPC, done>>
 
 Init ==
   /\ round = [v \in Honest |-> 1] /\ stage = [v \in Honest |-> "start"]
   /\ head = [v \in Honest |-> 0] /\ bsHead = [v \in Honest |-> 0]
-  /\ known = [v \in Honest |-> {0}]
+  /\ known = [v \in Honest |-> {0}] /\ arr = [v \in Honest |-> <<>>]
   /\ finR = [v \in Honest |-> [r \in {0} |-> 0]]
   /\ pv = [v \in Honest |-> << >>] /\ pc = [v \in Honest |-> << >>]
   /\ epv = [v \in Honest |-> {}] /\ epc = [v \in Honest |-> {}]
@@ -248,10 +283,13 @@ Step ==
   \/ \E v \in Honest, r \in 1..MaxRound, t \in Blocks : AcceptCommit(v, r, t, BestCommit(v, r, t))
   \/ \E v \in Honest : NextRound(v)
 
+(* the heaviest commit minus one entry, when that makes it fall short *)
+ShortCommits(v, r, t) == {BestCommit(v, r, t) \ {x} : x \in BestCommit(v, r, t)}
+
 Quiescent == \A v \in Honest : /\ round[v] = MaxRound /\ Completable(v)
 Live == ~done /\ Len(hist) < Depth /\ Safety /\ ~Quiescent
 Stop == /\ ~done /\ (Len(hist) >= Depth \/ ~Safety \/ Quiescent) /\ done' = TRUE
-        /\ UNCHANGED <<round, stage, head, known, finR, bsHead, pv, pc, epv, epc, sentPV, sentPC, hist>>
+        /\ UNCHANGED <<round, stage, head, known, arr, finR, bsHead, pv, pc, epv, epc, sentPV, sentPC, hist>>
 (* NOTE the conjunct order: TLC expands quantifiers of a state predicate that precedes *)
 (* the action into separate (duplicate) successors; evaluated after it, it is a test.  *)
 Next == (Step /\ UNCHANGED done /\ Live) \/ Stop
@@ -263,11 +301,12 @@ RSub(S) == RandomElement(SUBSET S)
 RandD(v, avail) == RSub({d \in avail : d[1] \in Honest}) \cup RandomElement(ByzParts(v, Byz))
 PrecommitOK(v, D) == /\ stage[v] = "prevoted" /\ ~Completable(v)
                      /\ LET d == Deliver(v, pv[v], epv[v], D) IN
-                          HasGhost(d.votes, d.eq) /\ IsDesc(head[v], Ghost(d.votes, d.eq))
+                          HasGhost(d.votes, d.eq) /\ ~Ambiguous(d.votes, d.eq) /\ IsDesc(head[v], Ghost(d.votes, d.eq))
 FinaliseOK(v, D) == /\ stage[v] = "precommitted" /\ ~Completable(v) /\ HasGhost(pv[v], epv[v])
                     /\ LET d == Deliver(v, pc[v], epc[v], D)
                            c == BFC(Ghost(pv[v], epv[v]), d.votes, d.eq)
-                       IN Height(c) >= Height(head[v]) /\ Total(d.votes, d.eq, c) > Threshold /\ IsDesc(bsHead[v], c)
+                       IN /\ ~Ambiguous(d.votes, d.eq) /\ ~Ambiguous(pv[v], epv[v])
+                          /\ Height(c) >= Height(head[v]) /\ Total(d.votes, d.eq, c) > Threshold /\ IsDesc(bsHead[v], c)
 CommitOK(v, r, t) == /\ r \notin DOMAIN finR[v] /\ t \in known[v] /\ IsDesc(bsHead[v], t) /\ t # bsHead[v]
                      /\ CommitWeight(t, BestCommit(v, r, t)) >= CommitMin
 PrimaryUsable(v) == Primary(round[v]) \in DOMAIN pv[v] /\ Height(pv[v][Primary(round[v])]) >= Height(head[v])
@@ -282,6 +321,8 @@ Candidates ==
   \cup {[a |-> "Finalise", v |-> vd[1], b |-> 0, D |-> vd[2], r |-> 0] :
            vd \in {y \in {<<x, RandD(x, AvailPC(x))>> : x \in {z \in Honest : stage[z] = "precommitted"}} : FinaliseOK(y[1], y[2])}}
   \cup UNION {{[a |-> "AcceptCommit", v |-> v, b |-> rt[2], D |-> {}, r |-> rt[1]] : rt \in {x \in (1..MaxRound) \X Blocks : CommitOK(v, x[1], x[2])}} : v \in Honest}
+  \cup UNION {{[a |-> "RejectCommit", v |-> v, b |-> rt[2], D |-> RandomElement(ShortCommits(v, rt[1], rt[2])), r |-> rt[1]] :
+                   rt \in {x \in (1..MaxRound) \X Blocks : CommitOK(v, x[1], x[2]) /\ CommitWeight(x[2], BestCommit(v, x[1], x[2])) = CommitMin}} : v \in Honest}
   \cup {[a |-> "NextRound", v |-> v, b |-> 0, D |-> {}, r |-> 0] :
            v \in {x \in Honest : Completable(x) /\ (IF HighestRound(x) > round[x] THEN HighestRound(x) ELSE round[x]) + 1 <= MaxRound}}
 Exec(c) ==
@@ -291,9 +332,10 @@ Exec(c) ==
     [] c.a = "Precommit" -> Precommit(c.v, c.D)
     [] c.a = "Finalise" -> Finalise(c.v, c.D)
     [] c.a = "AcceptCommit" -> AcceptCommit(c.v, c.r, c.b, BestCommit(c.v, c.r, c.b))
+    [] c.a = "RejectCommit" -> RejectCommit(c.v, c.r, c.b, c.D)
     [] OTHER -> NextRound(c.v)
 Skip == /\ hist' = Append(hist, [a |-> "Skip"])
-        /\ UNCHANGED <<round, stage, head, known, finR, bsHead, pv, pc, epv, epc, sentPV, sentPC, done>>
+        /\ UNCHANGED <<round, stage, head, known, arr, finR, bsHead, pv, pc, epv, epc, sentPV, sentPC, done>>
 NextRand ==
   \/ /\ \E c \in {RandomElement(Candidates \cup {[a |-> "None", v |-> 0, b |-> 0, D |-> {}, r |-> 0]})} :
            IF c.a = "None" THEN Skip ELSE Exec(c)
@@ -305,7 +347,7 @@ Spec == Init /\ [][Next]_vars
 (* behaviours leave TLC when they end (depth) or when they reach an unsafe state *)
 Dump == done => PrintT(<<"TRACE", ToJson([safe |-> Safety, nv |-> NV, byz |-> AsSeq(Byz), parent |-> Parent,
                                           commitMin |-> CommitMin, steps |-> hist])>>)
-View == <<round, stage, head, known, finR, bsHead, pv, pc, epv, epc, sentPV, sentPC, done>>
+View == <<round, stage, head, known, arr, finR, bsHead, pv, pc, epv, epc, sentPV, sentPC, done>>
 
 (* sanity properties of the model itself *)
 TypeOK == /\ \A v \in Honest : round[v] \in 1..MaxRound /\ head[v] \in Blocks /\ bsHead[v] \in Blocks
